@@ -1,8 +1,13 @@
 (* Property C03 — Algorithms traverse exactly the stored edges, with their current weights.
-   Only pinned statements; proofs in Proofs/AdjOk.v (on top of the WF invariant). *)
-From Coq Require Import List Bool ZArith Lia.
-From GV Require Import Base.Outcome Base.AMap Model.GState Model.Creation Spec.AGraph Spec.History.
-From GV Require Import Proofs.WFDefs Proofs.HistoryOk Proofs.AdjOk.
+   Only pinned statements; proofs in Proofs/AdjOk.v (on top of the WF invariant) and, for the
+   "Consequently ..." clause (distances, closeness and betweenness are functions of the node
+   list, the kind and the multiset of stored edges, whatever history produced the graph),
+   in Proofs/BrandesWF.v and Proofs/EdgeStoreOnly.v, on top of the end-to-end theorems of
+   C04 (Proofs/DijkstraWF.v), C06 (Proofs/ClosenessStateOk.v) and C05 (Proofs/BrandesWF.v). *)
+From Coq Require Import List Bool ZArith QArith Lia Permutation.
+From GV Require Import Base.Outcome Base.AMap Model.GState Model.Creation Model.Query Model.Cent Model.Brandes Model.Closeness Model.Dijkstra.
+From GV Require Import Spec.AGraph Spec.History Spec.ShortestPathDef Spec.EdgeStoreGraph Spec.EdgeStoreAdj.
+From GV Require Import Proofs.WFDefs Proofs.HistoryOk Proofs.AdjOk Proofs.ClosenessStateOk Proofs.BrandesWF Proofs.EdgeStoreOnly Proofs.BrandesWFExamples.
 Import ListNotations.
 
 Section C03.
@@ -53,4 +58,106 @@ Section C03.
   Theorem C03_holds_after_every_history : forall s (g : gstate),
     reachable teqb tltb s g -> WF g.
   Proof. exact (WF_reachable teqb tltb teqb_spec tltb_asym tltb_total). Qed.
+
+  (* ================================================================ "Consequently ..."
+     Weighted distances and centralities reported for a graph equal those computed from
+     get_all_edges() alone, whatever sequence of insertions, ignored duplicates or replacements
+     produced the graph: for two graphs reached by ANY two histories, under possibly different
+     GraphSpecs (duplicate policy, multigraph flag, missing-node rule, self-loop rule) of the same
+     kind (directed flag), with the same node list and get_all_edges equal up to order, the
+     reports are equal.  Premises are those of the end-to-end theorems of C04 / C06 / C05 quoted
+     here (in weighted mode no stored weight is NaN — "uniformly weighted"; for the centralities,
+     positive); [small_adj] is the size bound of dijkstra.rs' i32 counter. *)
+
+  (* the arcs the algorithms traverse (Spec/EdgeStoreGraph.v [edge_arc]: i -> j of cost c iff an
+     edge is stored between the i-th and the j-th node, c = 1 / the minimum stored weight) are a
+     function of the node list, the kind and the edge multiset *)
+  Theorem C03_traversal_arcs_depend_on_edge_store_only : forall (g1 g2 : gstate) weighted,
+    WF g1 -> WF g2 -> names g1 = names g2 -> directed (sp g1) = directed (sp g2) ->
+    Permutation (get_all_edges g1) (get_all_edges g2) ->
+    (weighted = true -> weights_real g1) ->
+    forall i j c, edge_arc teqb g1 weighted i j c <-> edge_arc teqb g2 weighted i j c.
+  Proof. exact (edge_arc_edge_multiset teqb tltb teqb_spec tltb_total). Qed.
+
+  (* C04 (quotes C04_reachable_single_source_answer): `single_source` returns on both graphs;
+     every name reported by both has the same distance; with no target the two maps have the same
+     keys and distances, with a target the target's entry is the same (which OTHER nodes happen to
+     be finalised before the target depends on the pop order among ties, i.e. on the history) *)
+  Theorem C03_distances_depend_on_edge_store_only : forall (s1 s2 : specs) (g1 g2 : gstate) (weighted : bool)
+      (source : T) (target : option T) (cutoff : option Q) (fo wp : bool) (si : nat),
+    reachable teqb tltb s1 g1 -> reachable teqb tltb s2 g2 -> directed s1 = directed s2 ->
+    names g1 = names g2 -> Permutation (get_all_edges g1) (get_all_edges g2) ->
+    small_adj g1 -> small_adj g2 ->
+    (weighted = true -> weights_nonneg g1 /\ weights_real g1) ->
+    name_at g1 si = Some source -> (forall t, target = Some t -> In t (names g1)) ->
+    cutoff_exceeded cutoff 0 = false ->
+    exists m1 m2,
+      single_source teqb g1 weighted source target cutoff fo wp = Ok m1 /\
+      single_source teqb g2 weighted source target cutoff fo wp = Ok m2 /\
+      (forall y i1 i2, lookup teqb y m1 = Some i1 -> lookup teqb y m2 = Some i2 -> sp_distance i1 = sp_distance i2) /\
+      (forall y, target = None \/ target = Some y ->
+                 option_map sp_distance (lookup teqb y m1) = option_map sp_distance (lookup teqb y m2)).
+  Proof. exact (distances_edge_store_only teqb tltb teqb_spec tltb_asym tltb_total). Qed.
+
+  (* the same for two coherent states with the same edge-store arcs (extensionally) *)
+  Theorem C03_distances_depend_on_arcs_only : forall (g1 g2 : gstate) (weighted : bool)
+      (source : T) (target : option T) (cutoff : option Q) (fo wp : bool) (si : nat),
+    WF g1 -> WF g2 -> small_adj g1 -> small_adj g2 ->
+    (weighted = true -> weights_nonneg g1) -> (weighted = true -> weights_nonneg g2) ->
+    names g1 = names g2 ->
+    (forall i j c, edge_arc teqb g1 weighted i j c <-> edge_arc teqb g2 weighted i j c) ->
+    name_at g1 si = Some source -> (forall t, target = Some t -> In t (names g1)) ->
+    cutoff_exceeded cutoff 0 = false ->
+    exists m1 m2,
+      single_source teqb g1 weighted source target cutoff fo wp = Ok m1 /\
+      single_source teqb g2 weighted source target cutoff fo wp = Ok m2 /\
+      (forall y i1 i2, lookup teqb y m1 = Some i1 -> lookup teqb y m2 = Some i2 -> sp_distance i1 = sp_distance i2) /\
+      (forall y, target = None \/ target = Some y ->
+                 option_map sp_distance (lookup teqb y m1) = option_map sp_distance (lookup teqb y m2)).
+  Proof. exact (distances_arcs_only teqb tltb teqb_spec tltb_total). Qed.
+
+  (* C06 (quotes C06_closeness_reachable): same keys in the same order, equal values *)
+  Theorem C03_closeness_depends_on_edge_store_only : forall (s1 s2 : specs) (g1 g2 : gstate) lw1 lw2 weighted wf,
+    reachable teqb tltb s1 g1 -> reachable teqb tltb s2 g2 -> directed s1 = directed s2 ->
+    names g1 = names g2 -> Permutation (get_all_edges g1) (get_all_edges g2) ->
+    (weighted = true -> positive_weights g1) ->
+    exists m1 m2,
+      closeness_centrality teqb tltb lw1 g1 weighted wf = Ok m1 /\
+      closeness_centrality teqb tltb lw2 g2 weighted wf = Ok m2 /\
+      map fst m1 = map fst m2 /\ Forall2 Qeq (map snd m1) (map snd m2).
+  Proof. exact (closeness_edge_store_only teqb tltb teqb_spec tltb_asym tltb_total). Qed.
+
+  (* C05 (quotes C05_betweenness_reachable): same keys in the same order, equal values, whatever
+     the heap tie choices *)
+  Theorem C03_betweenness_depends_on_edge_store_only : forall (s1 s2 : specs) (g1 g2 : gstate) lw1 lw2 weighted normalized,
+    reachable teqb tltb s1 g1 -> reachable teqb tltb s2 g2 -> directed s1 = directed s2 ->
+    names g1 = names g2 -> Permutation (get_all_edges g1) (get_all_edges g2) ->
+    (weighted = true -> weights_real_positive g1) ->
+    exists m1 m2,
+      betweenness_centrality lw1 g1 weighted normalized = Ok m1 /\
+      betweenness_centrality lw2 g2 weighted normalized = Ok m2 /\
+      map fst m1 = map fst m2 /\ Forall2 Qeq (map snd m1) (map snd m2).
+  Proof. exact (betweenness_edge_store_only teqb tltb teqb_spec tltb_asym tltb_total). Qed.
 End C03.
+
+(* non-vacuity of the premises: [bw_g] (directed, KeepLast, no multi-edges, nodes created on
+   demand; its history REPLACES the weight 5 of 1->2 by 1) and [bw_g'] (directed, duplicates are
+   errors, multigraph, nodes must exist; another insertion order) are reachable under different
+   GraphSpecs of the same kind, have the same node list and the same edge multiset in a different
+   order (their successors_vec differ), and betweenness, closeness and distances coincide *)
+Theorem C03_edge_store_only_nonvacuous :
+  reachable Z.eqb Z.ltb bw_specs bw_g /\ reachable Z.eqb Z.ltb bw_specs' bw_g' /\
+  bw_specs <> bw_specs' /\ directed bw_specs = directed bw_specs' /\
+  names bw_g = names bw_g' /\ weights_real_positive bw_g /\
+  Permutation (get_all_edges bw_g) (get_all_edges bw_g') /\
+  get_all_edges bw_g <> get_all_edges bw_g' /\ successors_vec bw_g <> successors_vec bw_g' /\
+  small_adj bw_g /\ small_adj bw_g' /\ weights_nonneg bw_g /\ weights_real bw_g /\
+  betweenness_centrality false bw_g true false = Ok [(1%Z, 0%Q); (2%Z, 1%Q); (3%Z, 0%Q)] /\
+  betweenness_centrality true bw_g' true false = Ok [(1%Z, 0%Q); (2%Z, 1%Q); (3%Z, 0%Q)] /\
+  closeness_centrality Z.eqb Z.ltb false bw_g true false = Ok [(1%Z, 0%Q); (2%Z, 1%Q); (3%Z, (2 # 3)%Q)] /\
+  closeness_centrality Z.eqb Z.ltb true bw_g' true false = Ok [(1%Z, 0%Q); (2%Z, 1%Q); (3%Z, (2 # 3)%Q)] /\
+  (exists m, single_source Z.eqb bw_g true 1%Z None None false true = Ok m /\
+             option_map sp_distance (lookup Z.eqb 3%Z m) = Some 2%Z) /\
+  (exists m, single_source Z.eqb bw_g' true 1%Z None None false true = Ok m /\
+             option_map sp_distance (lookup Z.eqb 3%Z m) = Some 2%Z).
+Proof. exact edge_store_only_nonvacuous. Qed.
